@@ -207,6 +207,15 @@ def check_graph(n, edges, els, bts, cls, fails, where, how=0, plain_bt=False):
         e = frozenset((ix[id(b.a1)], ix[id(b.a2)]))
         n_checks += 1
         got = bool(g.is_bond_in_ring(b))
+        if plain_bt is False and how == 1:
+            # asked with a Bond object of the caller's own that EQUALS the stored one (same two atoms, other way round)
+            from molli.chem import Bond as _Bond
+            try:
+                got_eq = bool(g.is_bond_in_ring(_Bond(b.a2, b.a1)))
+            except Exception:
+                got_eq = got      # (refusing a bond object that is not the stored one is fine)
+            if got_eq != got:
+                fails.append(Fail("is_bond_in_ring-differs-for-an-equal-bond-object", f"{where} bond {sorted(e)}: stored object {got}, equal object {got_eq}"))
         if got != (e not in br):
             fails.append(Fail("is_bond_in_ring-wrong:" + ("bridge-reported-in-ring" if got else "ring-bond-reported-as-bridge"), f"{where} bond {sorted(e)} of edges {edges}"))
     return n_checks, len(br), G
@@ -455,6 +464,17 @@ def check_match(r) -> list[Fail]:
         return [Fail(f"match-raises:{s}", f"{where}: {e!r}"[:300])]
     if sorted(got_idx) != sorted(got_map):
         fails.append(Fail("get_substr_indices-disagrees-with-match", where))
+    # the mappings COLLECTED first and looked at afterwards (list(mol.match(p)), sorted(...)): each is a mapping of its own
+    try:
+        kept = list(src.match(pat))
+        got_kept = [tuple(six.get(id(m.get(pa)), -1) for pa in pat.atoms) for m in kept]
+    except Exception as e:
+        s = exc_sig(e)
+        if s is None:
+            raise
+        return [Fail(f"match-raises:collected:{s}", f"{where}: {e!r}"[:300])]
+    if sorted(got_kept) != sorted(got_map):
+        fails.append(Fail("match:collected-mappings-differ-from-the-ones-seen-while-iterating", f"{where}: {len(got_map)} mappings while iterating, collected list shows {sorted(set(got_kept))[:3]}"))
     if len(set(got_idx)) != len(got_idx):
         fails.append(Fail("match:duplicate-mappings", where))
     ref = embeddings(n, edges, els, len(chosen), pedges, pels)
